@@ -93,3 +93,14 @@ PROPS["C11"] = dict(PROPS["C11"],
                     explanation=PROPS["C11"]["explanation"] +
                     ". Second engine realloop: the one thing about timing the scripted driver cannot show - what the real mio/epoll adapter answers when a signal interrupts the wait - is probed on the real RealDriver (clause C11.real_interrupt)",
                     assumptions=LOOP_ASSUME + ["realloop probe: SIGUSR1 is free for the harness process to handle; on a machine so loaded that the signal cannot be delivered during a 1000 ms wait in three attempts the probe gives no information (never a hit)"])
+
+# ---- second engine of C20: a write error of the real driver (tools/engines/realloop.py, probe "output-gone-on-send")
+PROPS["C20"] = dict(PROPS["C20"],
+                    engines=["loop", "realloop"],
+                    trusted=LOOP_TRUST + [
+                        "realloop engine, send-error probe: the C20 theorems are about Loop.run given an Err answer of the driver; that the REAL driver (RealDriver::send -> DevInputWriter::send -> write(2)) turns an I/O error into that Err answer is probed on the real loop in a child process over pipes: the read end of the virtual-keyboard pipe is closed, one key press is written to the keyboard pipe, and the child must end with the loop's Err (exit code 11) within 4 s (Rust ignores SIGPIPE, so write(2) fails with EPIPE); a child still running after 4 s, or ending any other way, is clause C20.real_send_error",
+                    ],
+                    rule=LOOP_RULE + " || realloop engine (shared with C10): only its send-error probe is observed by C20 (clause C20.real_send_error)",
+                    explanation=PROPS["C20"]["explanation"] +
+                    ". Second engine realloop: one real I/O error (EPIPE on the virtual keyboard) through the real driver must stop the real loop (clause C20.real_send_error); a read error or ENODEV cannot be produced on pipes",
+                    assumptions=LOOP_ASSUME + ["realloop probe: EPIPE stands for the class of write errors; ENODEV and read errors of an evdev node cannot be produced in the sandbox"])
